@@ -18,6 +18,16 @@ func c16Config(p *spec.Program, sortOn bool) spec.Config {
 	return c
 }
 
+// c16ConfigSamePkg: option values that coincide (struct package and target package have the same
+// name, the situation test/config.yaml comments on).
+func c16ConfigSamePkg(p *spec.Program) spec.Config {
+	c := p.Config.Clone()
+	c.Sort = true
+	c.TargetPackageName = "samepkg"
+	c.DefaultPackageName = "samepkg"
+	return c
+}
+
 func allOn(ch spec.Channel) map[string]spec.Channel {
 	m := map[string]spec.Channel{}
 	for _, d := range spec.DualOptions {
@@ -144,8 +154,11 @@ func C16Cases(p *spec.Program, seed uint64, tier string, nSplits int) ([]*Case, 
 		kinds[clause]++
 		cases = append(cases, &Case{Property: "C16", Clause: clause, Seed: seed, Tier: tier, Program: p, Ref: ref, Run: run, Expect: ex})
 	}
-	for _, sortOn := range []bool{true, false} {
-		cfg := c16Config(p, sortOn)
+	for variant := 0; variant < 3; variant++ {
+		cfg := c16Config(p, variant == 0)
+		if variant == 2 {
+			cfg = c16ConfigSamePkg(p)
+		}
 		refR := runFrom(cfg.Render(allOn(spec.ChYAML), nil))
 		refR.Note = "reference: every option in the YAML file"
 		ref := &refR
